@@ -53,7 +53,16 @@ def _gen_one(task):
         if "virtual:" + fi.name in world.contracts:
             obs = fv.run_virtual_check()
         out = []
+        cprops = world.contracts[key].clause_props
+        pid = os.environ.get("PYVC_PID")
         for o in obs:
+            skip = False
+            for lab, ps in cprops.items():
+                if f"#ensures.{lab}." in o.name or f"#ensures.{lab}/" in o.name or o.name.split("@")[0].endswith(f"#ensures.{lab}"):
+                    if pid is not None and pid not in ps:
+                        skip = True
+            if skip:
+                continue
             out.append({"name": o.name, "kind": o.kind, "where": o.where, "trivial": o.trivial,
                         "smt2": None if o.trivial else o.smt2(), "func": fv.label})
         covers = solve.cover_tasks(fv.covers)
@@ -170,6 +179,20 @@ def match_known(pid, item, known):
     return None
 
 
+def clause_in_property(world, v, pid):
+    """a run-time violation counts for a property if the violated function is tagged with it and the clause is not
+    reserved for other properties"""
+    c = world.contracts.get(v.get("function", ""))
+    if c is None:
+        return True
+    if pid not in c.props:
+        return False
+    clause = str(v.get("clause", ""))
+    lab = clause[8:] if clause.startswith("ensures_") else clause
+    ps = c.clause_props.get(lab)
+    return ps is None or pid in ps
+
+
 # ---------------------------------------------------------------- main
 def main(argv):
     if not argv:
@@ -188,6 +211,7 @@ def main(argv):
         from .replay import replay
         return replay(pid, argv[argv.index("--replay") + 1])
     t_start = time.time()
+    os.environ["PYVC_PID"] = pid
     spec = PROPS[pid]
     os.makedirs(os.path.join(OUT, "evidence"), exist_ok=True)
     os.makedirs(os.path.join(OUT, "replays"), exist_ok=True)
@@ -231,6 +255,8 @@ def main(argv):
     known_hits = []
     if bounded is not None:
         for v in bounded["violations"]:
+            if world is not None and not clause_in_property(world, v, pid):
+                continue
             kf = match_known(pid, v, known)
             if kf is not None:
                 known_hits.append((kf, v))
